@@ -162,12 +162,47 @@ func (o *c05Oracle) walkStruct(fs []c05Fld, obj *c05JV, val reflect.Value, path 
 				continue
 			}
 			if f.Opt {
-				// all-or-nothing semantics of optional embedded structs: UNSPECIFIED
+				// all-or-nothing semantics of optional embedded structs: UNSPECIFIED (acceptance is never
+				// demanded, a wholly absent one is not judged)
 				o.unspec("embedded-optional")
 				sub := c05NewOracle()
 				sub.walkStruct(f.T.F, obj, reflect.Value{}, p)
 				for id := range sub.panicPred {
 					o.panicPred[id] = true
+				}
+				// ... but when the document GIVES one of its members the embedded struct is there, and an
+				// accepted result is held to the statement member by member: a present member equals the
+				// document, an absent one holds its declared default (zero when optional). Only for plain
+				// members: env= / inherit / nested embedded members are looked up differently by the code.
+				if fv.IsValid() && c05EmbeddedJudgeable(o, f.T.F, obj) {
+					o.class("embedded-optional:partly-present")
+					// finding F21 embedded-optional-raw-key: processAnonymousFieldOptional looks the members up
+					// under the declared key, not under the unmarshaler's canonical form of it (conf loading,
+					// WithCanonicalKeyFunc): members the document gives are silently left zero
+					known := ""
+					for j := range f.T.F {
+						k := f.T.F[j].key(j)
+						if o.docKey(k) != k || o.canonKeys && c05ConfCamel(k) != k {
+							known = "embedded-optional-raw-key"
+						}
+					}
+					ev := fv
+					if ev.Kind() == reflect.Ptr {
+						if ev.IsNil() {
+							o.mismatch(known, "%s: the document gives members of the optional embedded struct, pointer left nil", p)
+							continue
+						}
+						ev = ev.Elem()
+					}
+					ex := c05NewOracle()
+					ex.canonKeys, ex.allStr, ex.keyFn, ex.native, ex.numText = o.canonKeys, o.allStr, o.keyFn, o.native, o.numText
+					ex.walkStruct(f.T.F, obj, ev, p)
+					for _, b := range ex.bad {
+						if b.Known == "" {
+							b.Known = known
+						}
+						o.bad = append(o.bad, b)
+					}
 				}
 				continue
 			}
@@ -273,6 +308,50 @@ func (o *c05Oracle) walkStruct(fs []c05Fld, obj *c05JV, val reflect.Value, path 
 			}
 		}
 	}
+}
+
+// c05ConfCamel: the camelCase form conf gives a key made of words, digits, "_" (written from
+// the statement's "snake_case or a different initial letter case": userName == user_name == UserName).
+func c05ConfCamel(k string) string {
+	var b strings.Builder
+	up, first := false, true
+	for _, r := range k {
+		switch {
+		case r == '_':
+			up = !first
+			continue
+		case first && r >= 'A' && r <= 'Z':
+			r += 'a' - 'A'
+		case up && r >= 'a' && r <= 'z':
+			r -= 'a' - 'A'
+		}
+		up, first = false, false
+		b.WriteRune(r)
+	}
+	return b.String()
+}
+
+// c05EmbeddedJudgeable: every member of the optional embedded struct is a plain, tagged, named
+// field and the document gives exactly one non-null value for at least one of them (none twice).
+func c05EmbeddedJudgeable(o *c05Oracle, fs []c05Fld, obj *c05JV) bool {
+	present := false
+	for i := range fs {
+		m := &fs[i]
+		if m.Anon || m.Env || m.Inh || m.OD != "" || m.KS == "dotted" || m.Tag == "" || m.Tag == "-other" || m.Tag == "-skip" {
+			return false
+		}
+		ms := obj.lookup(o.docKey(m.key(i)))
+		if len(ms) > 1 {
+			return false
+		}
+		if len(ms) == 1 {
+			if ms[0].T == "null" {
+				return false
+			}
+			present = true
+		}
+	}
+	return present
 }
 
 // envValue: the field's value comes from the environment variable (text).
